@@ -270,6 +270,7 @@ impl<'a> Lifter<'a> {
             "RArr" => Ok(v(format!("({}.at)({idx})", a.text), "real")),
             "OArr" => Ok(v(format!("({}.at)({idx})", a.text), "Rec")),
             "Seq<int>" => Ok(v(format!("{}[{idx}]", a.text), "int")),
+            t if t.starts_with("Seq<") && t.ends_with('>') => Ok(v(format!("{}[{idx}]", a.text), &t[4..t.len() - 1])),
             _ => Err(format!("construct outside rule list (lift): indexing a value of type {}", a.ty)),
         }
     }
@@ -509,6 +510,12 @@ impl<'a> Lifter<'a> {
                     "FRAC_PI_6" => return Ok(v("(PI() / 6real)", "real")),
                     "FRAC_PI_2" => return Ok(v("(PI() / 2real)", "real")),
                     "RGAS" => return Ok(v("RGAS()", "real")),
+                    // A11: there is no NaN over the reals - `f64::NAN` as a *value* (a marker for "no result") is one
+                    // uninterpreted real constant
+                    "f64::NAN" => {
+                        self.note("A11", e.span(), "`f64::NAN` as a value lifted to the uninterpreted constant r_nan()");
+                        return Ok(v("r_nan()", "real"));
+                    }
                     "None" => return Ok(v("None", "Option<?>")),
                     _ => {}
                 }
@@ -2399,7 +2406,8 @@ impl<'a> Lifter<'a> {
             }
         }
         // a.iter().zip(&b).map(|(x, y)| e).sum()  - the sum over the common index range of two arrays
-        if name == "sum" && m.args.is_empty() {
+        // (`.collect()` instead of `.sum()`: the array of the values over the common index range)
+        if (name == "sum" || name == "collect") && m.args.is_empty() {
             if let syn::Expr::MethodCall(mm) = &*m.receiver {
                 if mm.method == "map" && mm.args.len() == 1 {
                     if let syn::Expr::MethodCall(z) = &*mm.receiver {
@@ -2435,7 +2443,15 @@ impl<'a> Lifter<'a> {
                                                     self.env.pop();
                                                     self.closure_base.pop();
                                                     let body = body?;
-                                                    if body.ty == "real" {
+                                                    if name == "collect" && (body.ty == "real" || body.ty == "Rec") {
+                                                        self.note("L8", whole.span(), "zip-map-collect lifted to an index function over the common index range");
+                                                        let at = if body.ty == "Rec" { "OArr" } else { "RArr" };
+                                                        return Ok(v(
+                                                            format!("{at} {{ len: imin({0}.len, {1}.len), at: |k__: int| {{ let {xn} = ({0}.at)(k__); {{ let {yn} = ({1}.at)(k__); {2} }} }} }}", a.text, b.text, body.text),
+                                                            at,
+                                                        ));
+                                                    }
+                                                    if name == "sum" && body.ty == "real" {
                                                         self.note("L8", whole.span(), "zip-map-sum lifted to a recursive sum over the common index range");
                                                         return Ok(v(
                                                             format!("rsum(imin({0}.len, {1}.len), |k__: int| {{ let {xn} = ({0}.at)(k__); {{ let {yn} = ({1}.at)(k__); {2} }} }})", a.text, b.text, body.text),
@@ -2579,8 +2595,15 @@ impl<'a> Lifter<'a> {
                     }
                     // list.iter().map(|&i| e).collect()
                     if let syn::Expr::MethodCall(it) = recv {
-                        if it.method == "iter" {
+                        if it.method == "iter" || it.method == "into_iter" {
                             let list = self.expr(&it.receiver)?;
+                            if list.ty == "RArr" {
+                                let (pn, body) = self.closure1(&mm.args[0], "real")?;
+                                self.note("L8", whole.span(), "iter-map-collect over an array lifted to an index function");
+                                let at = if body.ty == "Rec" { "OArr" } else { "RArr" };
+                                let (pre, ln, post) = self.arr_bind(&list);
+                                return Ok(v(format!("{pre}{at} {{ len: {0}.len, at: |k__: int| {{ let {pn} = ({0}.at)(k__); {1} }} }}{post}", ln, body.text), at));
+                            }
                             if list.ty == "Seq<int>" {
                                 let (pn, body) = self.closure1(&mm.args[0], "int")?;
                                 self.note("L8", whole.span(), "iter-map-collect over an index list lifted to an index function");
